@@ -217,6 +217,16 @@ func (f *Fresh) level1(v ssa.Value) int {
 				}
 				return notFresh
 			}
+			// load of a field of a local struct variable: min over everything stored into that field
+			if fa, ok := x.X.(*ssa.FieldAddr); ok {
+				if vals, ok := fieldCellValues(fa.X, fa.Field); ok {
+					l := deep
+					for _, sv := range vals {
+						l = minInt(l, f.level(sv))
+					}
+					return l
+				}
+			}
 			if f.level(x.X) == deep {
 				return deep
 			}
@@ -363,7 +373,7 @@ func (f *Fresh) funcResults(fn *ssa.Function) []int {
 	}
 	allInstrs(fn, func(i ssa.Instruction) {
 		if ret, ok := i.(*ssa.Return); ok {
-			for k, rv := range ret.Results {
+			for k, rv := range retVals(ret) {
 				if k < n {
 					res[k] = minInt(res[k], f.level(rv))
 				}
@@ -585,4 +595,73 @@ func derefTarget(ref ssa.Value) ssa.Value { return ref }
 // freshBasedRef: writing through reference value ref (map, slice, pointer) stays in fresh memory.
 func (f *Fresh) freshBasedRef(ref ssa.Value) bool {
 	return f.level(ref) >= shallow
+}
+
+// fieldCellValues: all values stored into field idx of a local struct variable (an Alloc, possibly captured by
+// closures), or false if the variable's address escapes to code we do not follow.
+func fieldCellValues(base ssa.Value, idx int) ([]ssa.Value, bool) {
+	root := peelCell(base)
+	al, ok := root.(*ssa.Alloc)
+	if !ok {
+		return nil, false
+	}
+	if _, isStruct := al.Type().Underlying().(*types.Pointer).Elem().Underlying().(*types.Struct); !isStruct {
+		return nil, false
+	}
+	var vals []ssa.Value
+	okAll := true
+	seen := map[ssa.Value]bool{}
+	var visit func(v ssa.Value)
+	visit = func(v ssa.Value) {
+		if seen[v] {
+			return
+		}
+		seen[v] = true
+		for _, r := range referrers(v) {
+			switch x := r.(type) {
+			case *ssa.FieldAddr:
+				if x.Field != idx {
+					continue
+				}
+				for _, rr := range referrers(x) {
+					switch y := rr.(type) {
+					case *ssa.Store:
+						if y.Addr == ssa.Value(x) {
+							vals = append(vals, y.Val)
+						} else {
+							okAll = false
+						}
+					case *ssa.UnOp, *ssa.DebugRef:
+					default:
+						okAll = false // address of the field passed on
+					}
+				}
+			case *ssa.Store:
+				if x.Addr == v {
+					// whole-struct assignment: the stored struct's field
+					vals = append(vals, x.Val)
+					if _, isConst := x.Val.(*ssa.Const); !isConst {
+						okAll = false
+					}
+				} else {
+					okAll = false
+				}
+			case *ssa.UnOp, *ssa.DebugRef:
+			case *ssa.MakeClosure:
+				fn, _ := x.Fn.(*ssa.Function)
+				for bi, b := range x.Bindings {
+					if b == v && fn != nil && bi < len(fn.FreeVars) {
+						visit(fn.FreeVars[bi])
+					}
+				}
+			default:
+				okAll = false
+			}
+		}
+	}
+	visit(al)
+	if !okAll {
+		return nil, false
+	}
+	return vals, true
 }
